@@ -7,6 +7,8 @@ from ..lib import FAILED
 from ..runner import Sub
 
 ID = 'C01'
+TECHNIQUE = 'PBT (Hypothesis, 16 shards) + validity predicate + deterministic loop-bound guard (sys.monitoring)'
+LEVEL_TEXT = 'Exploration: Termination within a linear loop bound and well-formedness of (reduced, removed) are decided on ~10k generated (curve, simplifier, configuration) cases per quick run incl. 4k-20k point curves and magnitudes 1e-300..1e300; exploration only, absence is not established. Finds counter-examples (shrunk to a replay file); never proves absence.'
 RULE = ('Cases = (performance curve from 13 constructive families incl. exact/near collinear runs, '
         'zeros, plateaus, magnitudes 1e-9..1e15; simplifier in {rdp, grdp, rdp_fixed, mp_grdp, '
         'min_point_rdp}; Distance x Metrics x Order; boundary-aware threshold; length/min_points '
